@@ -28,7 +28,7 @@ def stepC03 (ts : List String) : String :=
     match t.toNat?, c03nats (sect s), votes, expels with
     | some t10, some S, some votes, some expels =>
       boolStr (valid S t10 { votes := votes, expels := expels, majority := if sect m = "-" then none else some (sect m),
-                              stuck := flags.contains "stuck" } Gen.C03.stuckRejectsMajority)
+                              stuck := flags.contains "stuck", offPoint := flags.contains "offpoint" } Gen.C03.stuckRejectsMajority)
     | _, _, _, _ => "bad-op"
   | _ => "bad-op"
 
